@@ -29,6 +29,17 @@ events and the same tables; the harness appends such rounds itself, bounded) - o
 still open (half closed, not reading) may stay pending and are not judged.
 Clients: a real `TCPClient` against a plain listening socket; `connected`/`disconnected` events per
 op vs. CV.Conn.Client, and CV.Conn.Client.alternates on the implementation's events.
+W11 (additive): server-wide `close()` (`closeall`) and the `stopped` event (`stop`) at any point of a server
+history (model ops `ca` / `st` = CV.Conn.XOp), judged on the implementation too: every connection that was open
+without queued output must have got exactly one `disconnect` in the course of that op and be closed and in no
+table, every one with queued output must wait in `_closeq` (or be disconnected), the listening socket must be
+closed and unregistered (`server-close(...)` signatures); `accept()` faults (EAGAIN / EPERM / EMFILE / ENFILE /
+ENOBUFS / ENOMEM / ECONNABORTED) injected through the listening-socket double: nothing may happen and the
+connection is accepted in a later round; clients: `UNIXClient` against a unix listener and `Pipe()` ends, under
+Select / Poll / EPoll, with `prepare_unregister` (`unreg`) and `stopped` (`cstop`) while connected, connect to a
+dead port / dead path, connect-close-reconnect cycles; judged on the implementation: a connected client that is
+unregistered (or stopped with nothing queued) reports exactly one `disconnected` in that op and its socket is closed
+(`client-release(...)`).
 """
 import errno
 import fcntl
@@ -112,6 +123,10 @@ class LogListen(socket.socket):
     rig = None
 
     def accept(self):
+        if self.rig.faults:
+            code = self.rig.faults.pop(0)
+            self.rig.fault_log.append(code)
+            raise OSError(code, os.strerror(code))
         fd, addr = self._accept()
         s = LogSock(self.family, self.type, self.proto, fileno=fd)
         self.rig.adopt(s)
@@ -124,8 +139,15 @@ def make_observer(rig):
     class Observer(BaseComponent):
         channel = 'server'
 
+        @handler('closed', priority=50)
+        def _on_closed(self, event, *args):
+            rig.log.append(('L', 'closed'))
+
         @handler('connect', 'read', 'disconnect', 'error', priority=50)
         def _on(self, event, *args):
+            if args and args[0] is rig.ls:
+                rig.log.append(('L', event.name))      # the listening socket is not an object of the pool
+                return
             o = rig.ids.get(id(args[0]), None) if args else None
             if o is None:
                 rig.log.append(('?', event.name))
@@ -148,6 +170,8 @@ class Rig:
         self.kind, self.family = kind, family
         self.tmp = None
         self.log = []
+        self.faults = []     # errno values the next accept() calls raise
+        self.fault_log = []
         self.gone = set()
         self.socks = {}      # object id -> LogSock (kept for ever)
         self.ids = {}        # id(sock) -> object id
@@ -205,6 +229,8 @@ class Rig:
         return ' '.join(f'{f}:{byno[f]}' if f in byno else f'{f}:x' for f in self.ever)
 
     def listener_ready(self):
+        if self.ls.fileno() < 0:
+            return False
         pp = select.poll()
         pp.register(self.ls.fileno(), select.POLLIN)
         return bool(pp.poll(0))
@@ -289,13 +315,14 @@ def tok(e):
 def execute(ops, kind, family):
     """run a history on the implementation.
     -> groups [(model_lines, impl {'ev': [...], 'sys': [...], 'tab': str}, spec_line)], stats"""
+    from circuits.core.events import stopped
     from circuits.core.pollers import _disconnect
     from circuits.net.events import close, write
     rig = Rig(kind, family)
     groups = []
     stats = {'late_write': 0, 'late_close': 0, 'exc': [], 'partial': 0, 'accepts': 0, 'gone': 0, 'disc': 0,
              'reads': 0, 'e2e': [], 'reuse': 0, 'eof': set(), 'unknown_ev': 0, 'unread_hangup': [],
-             'unread_close_judged': 0, 'epilogue': 0, 'term': 'none'}
+             'unread_close_judged': 0, 'epilogue': 0, 'term': 'none', 'listener_ev': [], 'closeall': [], 'faults': []}
     disconnected = set()
     connected = set()    # sockets announced with `connect`
     asked = set()        # sockets the server side was told to close / that got an injected hang-up
@@ -310,6 +337,9 @@ def execute(ops, kind, family):
         for e in log:
             if e[0] == '?':
                 stats['unknown_ev'] += 1
+            if e[0] == 'L':
+                stats['listener_ev'].append(e[1])
+        log = [e for e in log if e[0] != 'L']
         main = [e for e in log if e[0] != '?' and e[1] not in new]
         for e in log:
             if e[0] == 'c':
@@ -408,9 +438,43 @@ def execute(ops, kind, family):
                     do_round()
                     continue
                 last_round[0] = None
-                i = op[1]
+                i = op[1] if len(op) > 1 else None
+                if name == 'afault':
+                    # the next accept() of the listening socket fails with this errno (one of those `_accept` tolerates)
+                    rig.faults.append(getattr(errno, op[1]))
+                    stats['faults'].append(op[1])
+                    continue
+                if name in ('closeall', 'stop'):
+                    srv = rig.srv
+                    was = {o: bool(srv._buffers.get(sk)) for o, sk in rig.socks.items() if sk in srv._clients}
+                    asked.update(was)
+                    if name == 'closeall':
+                        rig.m.fire(close(), 'server')
+                    else:
+                        rig.m.fire(stopped(rig.m))
+                    settle(rig.m)
+                    main = finish(lambda main, line={'closeall': 'ca', 'stop': 'st'}[name]: [line])
+                    tab = dict((int(a), int(b)) for a, b in (t.split('=') for t in groups[-1][1]['tab'][2:].split(',') if t))
+                    nidle = nq = 0
+                    for o, queued in sorted(was.items()):
+                        nd = sum(1 for e in main if e[0] == 'd' and e[1] == o)
+                        fl = tab.get(o, 0)
+                        if not queued:
+                            nidle += 1
+                            if nd != 1:
+                                stats['e2e'].append((o, f'server-close(open-connection-got-{min(nd, 2)}-disconnects,{name})', nd, fl))
+                            elif fl != F_CLOSED:
+                                stats['e2e'].append((o, f'server-close(residue-after-disconnect,{name})', nd, fl))
+                        else:
+                            nq += 1
+                            if nd == 0 and not (fl & F_CLOSEQ):
+                                stats['e2e'].append((o, f'server-close(queued-connection-not-waiting,{name})', nd, fl))
+                    if rig.ls.fileno() >= 0 or rig.ls in rig.p._read:
+                        stats['e2e'].append((0, f'server-close(listener-left-open,{name})', 0, 0))
+                    stats['closeall'].append((name, nidle, nq))
+                    continue
                 if name == 'conn':
-                    if i in rig.peers or len(rig.peers) >= MAXCONN:
+                    if i in rig.peers or len(rig.peers) >= MAXCONN or rig.ls.fileno() < 0:
                         continue
                     c = socket.socket(socket.AF_INET if family == 'tcp' else socket.AF_UNIX, socket.SOCK_STREAM)
                     try:
@@ -682,6 +746,10 @@ def evaluate(ctx, cases, do_shrink=True):
                               f"changed any more ({b} appended) no disconnect was fired for it; still mentioned by "
                               f"{', '.join(names) or 'no table'}")
                     break
+                if k == sig and sig.startswith('server-close('):
+                    detail = (f": socket {o} (0 = the listening socket): {a} disconnect event(s) in the course of the "
+                              f"server-wide close, table flags afterwards {b}")
+                    break
                 if k == sig and sig.startswith('read-loss('):
                     detail = (f": the kernel held {b} unread byte(s) for socket {o} before the round; the server closed the "
                               f"socket in that round having received {a} of them through recv()")
@@ -704,6 +772,13 @@ def evaluate(ctx, cases, do_shrink=True):
         ctx.count('unread_input_close_judged', 'yes' if st['unread_close_judged'] else 'no')
         ctx.count('termination_after_peer_close', st['term'])
         ctx.count('rounds_appended_until_quiescence', st['epilogue'])
+        for name, nidle, nq in st['closeall']:
+            ctx.count('server_wide_close', f"{name}:{c['kind']}/{c['family']}")
+            ctx.count('server_wide_close_open_connections', f'idle={min(nidle, 3)}{"+" if nidle > 3 else ""},queued={min(nq, 2)}')
+        for f in st['faults']:
+            ctx.count('accept_faults', f)
+        for n in st['listener_ev']:
+            ctx.count('listener_events', n)
         for _l, impl, _s in groups:
             for t in impl['ev']:
                 ctx.count('events', t[0])
@@ -868,17 +943,78 @@ def small_scope(maxlen):
             yield [['conn', 1], ['poll']] + [list(t) for t in tup] + [['poll'], ['poll']]
 
 
+# --- W11: server-wide close / stop / accept faults -----------------------------------------
+
+ACCEPT_FAULTS = ['EAGAIN', 'EWOULDBLOCK', 'EPERM', 'EMFILE', 'ENOBUFS', 'ENFILE', 'ENOMEM', 'ECONNABORTED']
+
+
+def close_histories():
+    res = []
+    for end in ('closeall', 'stop'):
+        E = [[end]]
+        # idle connections; one with unread input; one whose peer is already gone; one still in the backlog
+        res.append([['conn', 1], ['conn', 2], ['conn', 3]] + P(3) + E + P(2))
+        res.append([['conn', 1]] + P() + [['send', 1, 5]] + E + P(2))
+        res.append([['conn', 1]] + P() + [['pclose', 1]] + E + P(2))
+        res.append([['conn', 1]] + P() + [['rst', 1], ['write', 1, 10]] + E + P(3))
+        res.append([['conn', 1]] + P() + [['conn', 2]] + E + P(3))
+        res.append([['conn', 1]] + E + P(2))
+        # queued output: small (flushed by the next round), stalled (peer does not read, then reads / dies)
+        res.append([['conn', 1], ['conn', 2]] + P(2) + [['write', 1, 10]] + E + P(3))
+        res.append([['conn', 1], ['conn', 2]] + P(2) + [['write', 2, 400000]] + P(2) + E + P()
+                   + ([['drain', 2, 'all']] + P(3)) * 3 + [['pclose', 2]] + P(3))
+        res.append([['conn', 1], ['conn', 2]] + P(2) + [['write', 2, 400000]] + P(2) + E + P() + [['rst', 2]] + P(3))
+        res.append([['conn', 1]] + P() + [['write', 1, 400000]] + P(2) + [['close', 1]] + E + [['hup', 1]] + P(2))
+        # late events after the server is closed; closed twice; closed and stopped
+        res.append([['conn', 1]] + P() + E + [['write', 1, 4], ['close', 1]] + E + [['stop'], ['closeall']] + P(2)
+                   + [['conn', 2]] + P(2))
+        res.append(E + P(2) + [['conn', 1]] + P(2) + E)
+    for i, f in enumerate(ACCEPT_FAULTS):
+        res.append([['conn', 1], ['afault', f]] + P(3) + [['send', 1, 3]] + P() + [['pclose', 1]] + P(2))
+        res.append([['conn', 1], ['conn', 2], ['afault', f], ['afault', ACCEPT_FAULTS[(i + 3) % len(ACCEPT_FAULTS)]]] + P(5)
+                   + [['send', 2, 3], ['write', 1, 7]] + P(2) + [['closeall' if i % 2 else 'stop']] + P(2))
+    return res
+
+
+def gen_close_history(rng):
+    """a random history with accept faults before some connects and one or two server-wide closes / stops in its
+    second half (what follows them are late events and peers that find the listener gone)"""
+    ops = []
+    for op in gen_history(rng):
+        if op[0] == 'conn' and rng.random() < 0.3:
+            ops.append(['afault', rng.choice(ACCEPT_FAULTS)])
+        ops.append(op)
+    for _ in range(rng.choice([1, 1, 2])):
+        ops.insert(rng.randint(len(ops) // 2, len(ops) - 2), [rng.choice(['closeall', 'stop'])])
+    return ops
+
+
+def small_scope_close(maxlen):
+    """every op sequence of length <= maxlen over one accepted connection that contains a server-wide close or stop"""
+    import itertools
+    alphabet = [['poll'], ['send', 1, 2], ['shut', 1], ['pclose', 1], ['rst', 1], ['write', 1, 3], ['close', 1], ['hup', 1],
+                ['closeall'], ['stop']]
+    for n in range(1, maxlen + 1):
+        for tup in itertools.product(alphabet, repeat=n):
+            if any(t[0] in ('closeall', 'stop') for t in tup):
+                yield [['conn', 1], ['poll']] + [list(t) for t in tup] + [['poll'], ['poll']]
+
+
 # ---------------------------------------------------------------------------------------
 # clients
 # ---------------------------------------------------------------------------------------
 
-def client_case(ctx, ops):
-    """a real TCPClient against a plain listening socket; -> (model lines, impl event lists per op, all impl events)"""
+def client_case(ctx, ops, family='tcp', kind='select', pipe=False):
+    """a real TCPClient against a plain listening socket (W11: or a UNIXClient against a unix listener, or one end of
+    a Pipe() whose other end is driven as a plain socket; under Select / Poll / EPoll);
+    -> (model lines, impl event lists per op, all impl events)"""
     import circuits.net.sockets as S
     from circuits import BaseComponent, Manager, handler
-    from circuits.core.pollers import Select
+    from circuits.core.events import stopped
+    from circuits.core.pollers import EPoll, Poll, Select
     from circuits.net.events import close, connect, write
     log, calls = [], []
+    tmp = None
 
     class CSock(socket.socket):
         def recv(self, *a):
@@ -913,24 +1049,49 @@ def client_case(ctx, ops):
         def _on_p(self, event, *args):
             log.append('@' + event.name)
 
-    ls = socket.socket(socket.AF_INET, socket.SOCK_STREAM)
-    ls.bind(('127.0.0.1', 0))
-    ls.listen(8)
-    ls.settimeout(1)
-    port = ls.getsockname()[1]
-    dead = socket.socket(socket.AF_INET, socket.SOCK_STREAM)
-    dead.bind(('127.0.0.1', 0))
-    deadport = dead.getsockname()[1]
-    dead.close()
+    if family == 'tcp':
+        ls = socket.socket(socket.AF_INET, socket.SOCK_STREAM)
+        ls.bind(('127.0.0.1', 0))
+        ls.listen(8)
+        ls.settimeout(1)
+        port = ls.getsockname()[1]
+        dead = socket.socket(socket.AF_INET, socket.SOCK_STREAM)
+        dead.bind(('127.0.0.1', 0))
+        deadport = dead.getsockname()[1]
+        dead.close()
+        good, bad = ('127.0.0.1', port), ('127.0.0.1', deadport)
+    else:
+        tmp = tempfile.mkdtemp(prefix='c12c-')
+        ls = socket.socket(socket.AF_UNIX, socket.SOCK_STREAM)
+        ls.bind(os.path.join(tmp, 's'))
+        ls.listen(8)
+        ls.settimeout(1)
+        good, bad = (os.path.join(tmp, 's'),), (os.path.join(tmp, 'nobody'),)
     saved = S.socket
+    saved_pair = S.socketpair
     S.socket = CSock
+
+    def logged_pair(*a):
+        x, y = saved_pair(*a)
+        return (CSock(x.family, x.type, x.proto, fileno=x.detach()), CSock(y.family, y.type, y.proto, fileno=y.detach()))
+
     m = Manager()
     peer = [None]
     skipped, forced = [0], [0]
-    lines, per_op = ['cli reset'], []
+    problems = []
+    lines, per_op = ['cli reset pipe' if pipe else 'cli reset'], []
     try:
-        p = Select().register(m)
-        cl = S.TCPClient(connect_timeout=0.05).register(m)
+        p = {'select': Select, 'poll': Poll, 'epoll': EPoll}[kind]().register(m)
+        if pipe:
+            S.socketpair = logged_pair
+            cl, other = S.Pipe('client', 'c12-other-end')
+            S.socketpair = saved_pair
+            cl.register(m)               # the other end is not a component here: its socket plays the peer
+            peer[0] = other._sock
+        elif family == 'tcp':
+            cl = S.TCPClient(connect_timeout=0.05).register(m)
+        else:
+            cl = S.UNIXClient().register(m)
         Obs().register(m)
         settle(m)
         del log[:]
@@ -945,18 +1106,20 @@ def client_case(ctx, ops):
                     continue
                 if was:
                     forced[0] += 1
-                m.fire(connect('127.0.0.1', port if op[1] else deadport), 'client')
+                m.fire(connect(*(good if op[1] else bad)), 'client')
                 t0 = time.time()
                 while (len(m) or m._tasks) and time.time() - t0 < 3:
                     m.tick()
-                if op[1] and not was:
+                evs = [t for t in log if not t.startswith('@')]
+                if op[1] and not was and (family == 'tcp' or 'C' in evs):
                     try:
                         peer[0] = ls.accept()[0]
                         peer[0].setblocking(False)
                     except OSError:
                         pass
-                evs = [t for t in log if not t.startswith('@')]
-                mline = 'cli co ' + ('ok' if 'C' in evs else ('refused' if 'E' in evs else 'timeout'))
+                # UNIXClient: an error answer of connect_ex() is reported as `error` alone (no `unreachable`, no `_close()`)
+                mline = 'cli co ' + ('ok' if 'C' in evs else ('refused' if 'E' in evs and (family == 'tcp' or 'U' in evs) else
+                                                               ('failed' if 'E' in evs else 'timeout')))
                 lines.append(mline)
                 per_op.append((mline, evs))
                 continue
@@ -989,6 +1152,27 @@ def client_case(ctx, ops):
                 m.fire(close(), 'client')
                 settle(m)
                 mls = ['cli cl']
+            elif name == 'unreg':
+                # the client component is taken out of the tree (prepare_unregister) and put back
+                was_up = bool(cl.connected)
+                cl.unregister()
+                settle(m)
+                nd = log.count('D')
+                if was_up and (nd != 1 or cl.connected or cl._sock.fileno() >= 0):
+                    problems.append(f'client-release(unregister,{min(nd, 2)}-disconnected)')
+                cl.register(m)
+                settle(m)
+                mls = ['cli un']
+            elif name == 'cstop':
+                was_up, queued = bool(cl.connected), bool(cl._buffer)
+                m.fire(stopped(m))
+                settle(m)
+                nd = log.count('D')
+                if was_up and not queued and (nd != 1 or cl.connected or cl._sock.fileno() >= 0):
+                    problems.append(f'client-release(stopped,{min(nd, 2)}-disconnected)')
+                elif was_up and queued and nd == 0 and not cl._closeflag:
+                    problems.append('client-release(stopped,queued-output-close-not-pending)')
+                mls = ['cli st']
             elif name == 'poll':
                 p._generate_events(GE())
                 settle(m)
@@ -1017,6 +1201,14 @@ def client_case(ctx, ops):
                 per_op.append((None, evs))
     finally:
         S.socket = saved
+        S.socketpair = saved_pair
+        if tmp:
+            shutil.rmtree(tmp, ignore_errors=True)
+        try:
+            if kind == 'epoll':
+                p._poller.close()
+        except Exception:
+            pass
         for s in (ls, peer[0], getattr(locals().get('cl'), '_sock', None)):
             try:
                 if s is not None:
@@ -1028,38 +1220,57 @@ def client_case(ctx, ops):
                 os.close(fd)
         except Exception:
             pass
-    return lines, per_op, {'skipped': skipped[0], 'forced': forced[0]}
+    return lines, per_op, {'skipped': skipped[0], 'forced': forced[0], 'problems': problems}
 
 
 def evaluate_clients(ctx, cases):
+    # all cases are executed first; the model's answers (and the spec on the implementation's life line) come from
+    # one driver batch per 100 cases
+    execd = []
     for ops in cases:
-        case = {'client_ops': ops}
-        lines, per_op, cst = client_case(ctx, ops)
-        ans = ctx.driver.run('conn', lines)
+        if isinstance(ops, dict):
+            case = ops
+            ops = case['client_ops']
+        else:
+            case = {'client_ops': ops}
+        fam, ckind, pipe = case.get('cfamily', 'tcp'), case.get('ckind', 'select'), bool(case.get('pipe'))
+        try:
+            lines, per_op, cst = client_case(ctx, ops, fam, ckind, pipe)
+        except OSError as e:
+            raise Infra(f'client socket setup failed: {e}')
+        life = [t for _ml, evs in per_op if evs is not None for t in evs if t in ('C', 'D')]
+        if life:
+            lines = lines + [('clispec pipe ' if pipe else 'clispec ') + ' '.join(life)]
+        execd.append((case, ops, fam, ckind, pipe, lines, per_op, cst, life))
+    answers = []
+    for i in range(0, len(execd), 100):
+        answers += ctx.driver.batch('conn', [e[5] for e in execd[i:i + 100]])
+    for (case, ops, fam, ckind, pipe, lines, per_op, cst, life), ans in zip(execd, answers):
         ok = True
         it = iter(ans[1:])
         pend_model = []
-        allimpl = []
         for ml, evs in per_op:
             if ml is not None:
                 a = next(it)
                 pend_model += [] if a == '-' else a.split()
             if evs is not None:
-                allimpl += evs
                 if pend_model != evs and ok:
                     ok = False
                     ctx.disagree(case, {'where': 'client.' + (ml or 'none').split()[-2 if ml and len(ml.split()) > 2 else -1],
                                         'line': ml, 'impl': evs, 'model': pend_model})
                 pend_model = []
-        life = [t for t in allimpl if t in ('C', 'D')]
-        sa = ctx.driver.run('conn', ['clispec ' + ' '.join(life)])[0] if life else 'ok'
+        sa = ans[-1] if life else 'ok'
         if sa != 'ok':
             why = 'connect-while-connected' if cst['forced'] else 'other'
             ctx.violate(case, f'client-connected-disconnected-not-paired({why})', f'client events {life}')
+        for sig in sorted(set(cst['problems'])):
+            ctx.violate(case, sig, f"{'pipe' if pipe else fam}/{ckind}: a connected client was unregistered / stopped and did not "
+                                   f"report exactly one disconnected and release its socket ({sig})")
         ctx.count('client_connect_while_connected', 'skipped' if cst['skipped'] else ('forced' if cst['forced'] else 'none'))
         for op in ops:
             ctx.count('client_ops', op[0])
         ctx.count('client_lifecycles', life.count('D'))
+        ctx.count('client_endpoint', f"{'pipe' if pipe else fam}/{ckind}")
         ctx.case(case, nontrivial=bool(life.count('D')), validated=ok)
 
 
@@ -1087,6 +1298,30 @@ def gen_client(rng):
             ops.append(['poll'])
     ops += [['poll'], ['poll']]
     return ops
+
+
+def gen_client_x(rng):
+    """as gen_client, with `prepare_unregister` and `stopped` reaching the client"""
+    ops = []
+    for op in gen_client(rng):
+        ops.append(op)
+        r = rng.random()
+        if r < 0.08:
+            ops += [['unreg'], ['poll']]
+        elif r < 0.16:
+            ops += [['cstop'], ['poll'], ['poll']]
+    return ops
+
+
+CLIENT_X_DIRECTED = [
+    [['co', 1], ['psend', 3], ['poll'], ['unreg'], ['poll'], ['co', 1], ['cclose'], ['poll']],
+    [['co', 1], ['cwrite', 5], ['cstop'], ['poll'], ['poll']],
+    [['co', 1], ['cstop'], ['poll'], ['co', 1], ['psend', 2], ['poll'], ['pclose'], ['poll'], ['poll']],
+    [['co', 0], ['poll'], ['co', 1], ['unreg'], ['unreg'], ['cstop'], ['poll']],
+    [['co', 1], ['prst'], ['poll'], ['poll'], ['co', 1], ['poll'], ['co', 0], ['poll']],
+    [['co', 1], ['cwrite', 3000], ['cwrite', 10], ['unreg'], ['poll'], ['poll']],
+    [['co', 1], ['psend', 50], ['pclose'], ['poll'], ['poll'], ['cstop'], ['unreg'], ['poll']],
+]
 
 
 CLIENT_DIRECTED = [
@@ -1118,6 +1353,18 @@ def make_cases(ctx):
             cases.append({'ops': [list(o) for o in d], 'kind': k, 'family': 'tcp'})
             cases.append({'ops': [list(o) for o in d], 'kind': k, 'family': 'unix'})
     thorough = ctx.tier == 'thorough' and not ctx.searching
+    for d in close_histories():
+        for k in KINDS:
+            cases.append({'ops': [list(o) for o in d], 'kind': k, 'family': 'tcp'})
+        cases.append({'ops': [list(o) for o in d], 'kind': rng.choice(KINDS), 'family': 'unix'})
+    for ops in small_scope_close(3 if thorough else 2):
+        for k in (KINDS if thorough else [rng.choice(KINDS)]):
+            cases.append({'ops': ops, 'kind': k, 'family': 'tcp'})
+    for _ in range(300 if thorough else 30 * ctx.scale):
+        ops = gen_close_history(rng)
+        fam = 'tcp' if rng.random() < 0.6 else 'unix'
+        for k in KINDS:
+            cases.append({'ops': ops, 'kind': k, 'family': fam})
     for ops in small_scope(3 if thorough else 2):
         for k in (KINDS if thorough else [rng.choice(KINDS)]):
             cases.append({'ops': ops, 'kind': k, 'family': 'tcp'})
@@ -1143,16 +1390,22 @@ def run(ctx):
                 'has closed got its disconnect or nothing changes any more '
                 '+ every op sequence of length <= 2 '
                 '(quick) / 3 (thorough) over one connection + random histories (1-5 connections, 20-60 actions) x 3 pollers; '
-                'client cases: a real TCPClient against a plain listener; non-trivial = at least one connection accepted and '
+                'W11: close histories (server-wide close() / stopped with idle, unread, dead, backlog, queued and stalled '
+                'connections, late events after the close, closed twice) and accept-fault histories x 3 pollers x tcp/unix, '
+                'every op sequence of length <= 2/3 containing closeall/stop, random histories with accept faults and 1-2 '
+                'server-wide closes; client cases: a real TCPClient / UNIXClient / Pipe() end against a plain listener / '
+                'plain peer socket under Select/Poll/EPoll, with unregister and stopped; non-trivial = at least one connection accepted and '
                 'disconnected; distinct = distinct (history, poller, family)')
     ctx.trusted += ['kernel: readiness as in C10 (validated by this run); recv/send results are taken from the record of the '
                     'real socket calls (the model says which calls are made, the records must coincide)',
                     'TCP/UNIX loopback delivers in order what a peer sent (end-to-end read comparison)',
                     'accept() returns connections in the order the peers connected (peer i <-> i-th accepted socket)']
     ctx.assumptions += ['the loop is stepped: zero-timeout poll rounds + tick() to quiescence; no run(), no threads',
-                        'one server component per poller; TLS/starttls and close() of the whole server are not exercised',
+                        'one server component per poller; TLS/starttls are not exercised; the listening socket is not an object '
+                        'of the model (its closing by a server-wide close is checked on the implementation only)',
                         'write-side payloads are compared by length (contents are C11)',
-                        'clients: TCPClient only; connect is issued only while not connected']
+                        'clients: TCPClient, UNIXClient and Pipe() ends (the other end driven as a plain socket); connect is '
+                        'issued only while not connected; TLS is not exercised; UDPServer is not exercised']
     cases = make_cases(ctx)
     for i in range(0, len(cases), 40):
         evaluate(ctx, cases[i:i + 40])
@@ -1161,6 +1414,16 @@ def run(ctx):
     ccases = [[list(o) for o in d] for d in CLIENT_DIRECTED]
     for _ in range(1000 if (ctx.tier == 'thorough' and not ctx.searching) else 60 * ctx.scale):
         ccases.append(gen_client(ctx.rng))
+    # W11: UNIXClient, Pipe() ends and TCPClient under every poller, with unregister / stop
+    for ep in ('tcp', 'unix', 'pipe'):
+        for k in KINDS:
+            for d in CLIENT_DIRECTED[:6] + CLIENT_X_DIRECTED:
+                ccases.append({'client_ops': [list(o) for o in d], 'cfamily': 'tcp' if ep == 'tcp' else 'unix', 'ckind': k,
+                               'pipe': ep == 'pipe'})
+    for _ in range(600 if (ctx.tier == 'thorough' and not ctx.searching) else 45 * ctx.scale):
+        ep = ctx.rng.choice(['tcp', 'unix', 'unix', 'pipe'])
+        ccases.append({'client_ops': gen_client_x(ctx.rng), 'cfamily': 'tcp' if ep == 'tcp' else 'unix',
+                       'ckind': ctx.rng.choice(KINDS), 'pipe': ep == 'pipe'})
     evaluate_clients(ctx, ccases)
 
 
@@ -1170,7 +1433,7 @@ def search(ctx):
 
 def replay(ctx, case):
     if 'client_ops' in case:
-        evaluate_clients(ctx, [case['client_ops']])
+        evaluate_clients(ctx, [case])
     else:
         evaluate(ctx, [{'ops': case['ops'], 'kind': case.get('kind', 'select'), 'family': case.get('family', 'tcp')}],
                  do_shrink=False)
